@@ -54,8 +54,8 @@ def _tag_of_type(t):
         return 'range'
     if t == 'alloc::vec::Vec<toml_edit::key::Key>':
         return 'keys'
-    if t.startswith('alloc::vec::Vec<('):
-        return 'pairs'
+    if t.startswith('alloc::vec::Vec<') and t not in ('alloc::vec::Vec<toml_edit::key::Key>',) and not t.startswith('alloc::vec::Vec<toml_edit::item::Item>'):
+        return 'pairs'          # the key-value pairs of an inline table, whatever each pair is (a tuple, a struct)
     if t.startswith('alloc::vec::Vec<toml_edit::item::Item>'):
         return 'items'
     for full, tag in (('toml_edit::value::Value', 'value'), ('toml_edit::raw_string::RawString', 'raw'), ('toml_edit::internal_string::InternalString', 'istr'),
@@ -344,7 +344,22 @@ class Pipeline:
         if text[m.end()] != '}':
             raise ValueError(f'no `}}` at {m.end()} in {text!r}')
         pre = self.fn('toml_edit::raw_string::RawString::with_span', rng(p, m.end()))
-        t = self.action(IT_ + 'inline_table', lambda c: self.inner(c) and self.calls('table_from_pairs')(c), VecObj(pairs), pre)
+        parts = [VecObj(pairs), pre]
+        # what inline_table_keyvals makes of its two parts (nothing today: a tuple; a closure that packs them into a struct would be evaluated here)
+        kvc = [c for c in self.closures(IT_ + 'inline_table_keyvals') if self.inner(c)] if self.f.has_body(IT_ + 'inline_table_keyvals') else []
+        if len(kvc) == 1 and len(kvc[0].get('params', [])) == 1:
+            try:
+                parts = [self.it.apply(self.it.val(kvc[0], {}), shape_for(kvc[0]['params'], parts))]
+            except Unanalysable:
+                parts = [VecObj(pairs), pre]
+        cl = [c for c in self.closures(IT_ + 'inline_table') if self.inner(c) and self.calls('table_from_pairs')(c)]
+        tfp = IT_ + 'table_from_pairs'
+        if len(cl) == 1:
+            t = self.it.apply(self.it.val(cl[0], {}), shape_for(cl[0].get('params', []), parts))
+        elif not cl and self.f.has_body(tfp) and any(n.get('k') == 'path' and n.get('path') == tfp for n in walk(self.f.body(IT_ + 'inline_table')['body'])):
+            t = self.it.apply_fn(self.f.body(tfp), shape_for(self.f.body(tfp).get('params', []), parts))          # handed to try_map by name
+        else:
+            raise Unanalysable(f'{len(cl)} closures of `{IT_}inline_table` hand the pairs to table_from_pairs')
         return self.unwrap(t, f'inline table at {pos}'), m.end() + 1
 
     def value(self, text, pos):
